@@ -30,6 +30,8 @@ THEOREMS = [
     'Pyiga.Props.C14.glue_order_independent',
     'Pyiga.Props.C14.glue_spec_calls',
     'Pyiga.Props.C14.glue_spec_boundaries',
+    'Pyiga.Props.C14.glue_spec_phases',
+    'Pyiga.Props.C14.glue_spec_call_phases',
     'Pyiga.Props.C14.glue_spec_partial',
     'Pyiga.Props.C14.asCoded_eq_repaired_of_noMeet',
     'Pyiga.Props.C14.glue_spec_asCoded_false',
@@ -42,7 +44,7 @@ THEOREMS = [
     'Pyiga.Props.C14.p2gIdx_ok',
     'Pyiga.Props.C14.globOf_inv',
 ]
-MODULES = ['Pyiga.Model.Index', 'Pyiga.Model.Slice', 'Pyiga.Model.Multipatch', 'Pyiga.Proofs.Multipatch', 'Pyiga.Proofs.MultipatchMat', 'Pyiga.Proofs.MultipatchSlice', 'Pyiga.Props.C14']
+MODULES = ['Pyiga.Model.Index', 'Pyiga.Model.Slice', 'Pyiga.Model.Multipatch', 'Pyiga.Proofs.Multipatch', 'Pyiga.Proofs.MultipatchMat', 'Pyiga.Proofs.MultipatchSlice', 'Pyiga.Proofs.MultipatchPhases', 'Pyiga.Props.C14']
 
 KEY_MERGE = 'join meets two existing classes'
 KEY_UNSHARED = 'patch without shared dofs'
@@ -383,6 +385,143 @@ def gen_histories(ctx):
     return H
 
 
+# ----------------------------------------------------------------------------- multi-phase stream
+
+def phases_stream(ctx):
+    """ONE Multipatch object through 2-3 phases: joins -> finalize() -> queries (state, numdofs, every
+    patch_to_global_idx, patch_to_global, compute_dirichlet_bcs on several patches/faces, assemble_system)
+    -> more joins (incl. 'periodic' identifications that merge classes) -> finalize() -> the same queries
+    again.  The model recomputes everything from the current tables; the oracle is the networkx closure of
+    all identifications declared so far, and Dirichlet dofs = global indices of the face dofs.
+    Anything cached on the object across finalize() shows up as a disagreement in a later phase."""
+    from pyiga import assemble, geometry
+    import scipy.sparse
+    rng = ctx.rng
+    n_hist = 260 if ctx.tier == 'quick' else 4000
+    geo_of = {1: lambda: geometry.line_segment(0.0, 1.0), 2: geometry.unit_square, 3: geometry.unit_cube}
+    req, impl, meta = [], [], []
+    orig_assemble = assemble.assemble
+    for h in range(n_hist):
+        kind = int(rng.integers(0, 4))
+        if kind == 0:
+            c = [[int(rng.integers(2, 4))], [int(rng.integers(2, 4)) for _ in range(int(rng.integers(2, 4)))]]
+            rev = rand_rev(rng, len(c[1]), 2, 0.3)
+            shapes, intf = grid_complex(c, rev)                      # strip 1 x k
+            # periodic closure: last patch's far face ~ first patch's near face (not detectable geometrically)
+            k = len(c[1])
+            if c[1][0] == c[1][-1] or True:
+                s_last = 0 if rev[k - 1][1] else 1
+                s_first = 1 if rev[0][1] else 0
+                intf = intf + [(k - 1, 1, s_last, 0, 1, s_first, (bool(rev[k - 1][0] != rev[0][0]),))]
+        elif kind == 1:
+            rev = rand_rev(rng, 4, 2, 0.3)
+            shapes, intf = grid_complex([[int(rng.integers(2, 4)) for _ in range(2)] for _ in range(2)], rev)
+        elif kind == 2:
+            k = int(rng.integers(3, 6))
+            shapes, intf = ring_complex(k, int(rng.integers(2, 4)), rand_rev(rng, k, 2, 0.3))
+        else:
+            rev = rand_rev(rng, 4, 3, 0.3)
+            shapes, intf = grid_complex([[2, 2], [2], [2, int(rng.integers(2, 4))]], rev)
+        dim = len(shapes[0])
+        calls = [('jb',) + tuple(intf[int(i)]) for i in rng.permutation(len(intf))]
+        if rng.random() < 0.3:
+            calls = with_repetition(rng, calls)
+        nph = int(rng.integers(2, 4))
+        cuts = sorted(int(v) for v in rng.integers(0, len(calls) + 1, size=nph - 1))
+        phases = [calls[a:b] for a, b in zip([0] + cuts, cuts + [len(calls)])]
+        Q = [(int(rng.integers(0, len(shapes))), int(rng.integers(0, dim)), int(rng.integers(0, 2)), int(rng.integers(1, 10)))
+             for _ in range(int(rng.integers(1, 5)))]
+        ctx.case(('phases', tuple(map(tuple, shapes)), tuple(map(tuple, phases)), tuple(Q)), nontrivial=len(calls) >= 2)
+        ctx.count('multi-phase histories'); ctx.count('multi-phase: phases', nph)
+        Ns = [int(np.prod(sh)) for sh in shapes]
+        Ap = [rng.integers(-3, 4, size=(n, n)) for n in Ns]
+        bp = [rng.integers(-3, 4, size=n) for n in Ns]
+        outs = []
+        found = None
+        try:
+            geos = [geo_of[dim]() for _ in shapes]
+            patches = [(tuple(kv_with(n) for n in sh), g) for sh, g in zip(shapes, geos)]
+            M = assemble.Multipatch(patches, automatch=False)
+            sofar = []
+            for ph_no, ph in enumerate(phases):
+                for c in ph:
+                    _, p1, ax1, s1, p2, ax2, s2, flip = c
+                    M.join_boundaries(p1, (ax1, s1), p2, (ax2, s2), flip=flip)
+                sofar = sofar + ph
+                M.finalize()
+                fin = 'fin %s nd=%d ' % (state_str(M), int(M.numdofs))
+                idx = [np.asarray(M.patch_to_global_idx(p)) for p in range(len(shapes))]
+                fin += ' ; '.join(plist(int(v) for v in ix) for ix in idx)
+                try:
+                    bi, bv = M.compute_dirichlet_bcs([(p, (ax, sd), float(val)) for (p, ax, sd, val) in Q])
+                    bi = [int(v) for v in bi]; bv = [float(v) for v in bv]
+                    if any(abs(v - round(v)) > 1e-9 for v in bv):
+                        found = found or 'phase %d: compute_dirichlet_bcs values are not the constant data' % ph_no
+                    bc = plist(zip(bi, bv), lambda iv: '%d:%d' % (iv[0], int(round(iv[1]))))
+                    # model-free: Dirichlet dofs = global indices (fresh numbering) of the face dofs, first occurrence wins
+                    want = {}
+                    for (p, ax, sd, val) in Q:
+                        for i in face_np(shapes[p], ax, sd):
+                            want.setdefault(int(idx[p][i]), val)
+                    if sorted(want) != bi or [want[i] for i in bi] != [int(round(v)) for v in bv]:
+                        found = found or ('phase %d: compute_dirichlet_bcs does not address the glued dofs of the faces: got indices %s, '
+                                          'global indices of the face dofs are %s (numdofs %d)' % (ph_no, bi[:12], sorted(want)[:12], int(M.numdofs)))
+                except Exception as ex:
+                    bc = errtok(ex)
+                    found = found or 'phase %d: compute_dirichlet_bcs raised %s' % (ph_no, type(ex).__name__)
+                outs.append(fin + ' bc=' + bc)
+                d = oracle(shapes, sofar, M)
+                if d is not None:
+                    found = found or 'phase %d: %s' % (ph_no, d)
+                # assemble_system on the same object (integer patch matrices through a table lookup)
+                def fake(problem, kvs, args=None, bfuns=None, symmetric=False, format='csr', layout='blocked', **kw):
+                    p = next(k for k, g in enumerate(geos) if g is args['geo'])
+                    return scipy.sparse.csr_matrix(Ap[p].astype(float)) if problem == 'A' else bp[p].astype(float)
+                assemble.assemble = fake
+                try:
+                    A, b = M.assemble_system('A', 'b')
+                finally:
+                    assemble.assemble = orig_assemble
+                A = np.asarray(A.toarray()); nd = int(M.numdofs)
+                wantA = np.zeros((nd, nd)); wantb = np.zeros(nd)
+                for p in range(len(shapes)):
+                    np.add.at(wantA, (idx[p][:, None], idx[p][None, :]), Ap[p])
+                    np.add.at(wantb, idx[p], bp[p])
+                if A.shape != wantA.shape or not np.array_equal(A, wantA) or not np.array_equal(np.asarray(b), wantb):
+                    found = found or 'phase %d: assemble_system differs from sum_p X_p A_p X_p^T for the current numbering' % ph_no
+        except Exception as ex:
+            outs.append(errtok(ex))
+            found = found or 'implementation raised %s: %s' % (type(ex).__name__, str(ex)[:120])
+        finally:
+            assemble.assemble = orig_assemble
+        req.append('phases 1 1 %s %s %s' % (plist(shapes, plist), plist(Q, lambda q: '%d %d %d %d' % q), plist(phases, lambda ph: plist(ph, fmt_call))))
+        impl.append(' || '.join(outs)); meta.append((shapes, phases, Q, found))
+    got = ctx.model('drv_c14', req)
+    nd_ = 0
+    for r, e, g, m in zip(req, impl, got, meta):
+        shapes, phases, Q, found = m
+        if e != g or found is not None:
+            nd_ += 1
+            if nd_ <= 3:
+                if e != g:
+                    pe, pg = e.split(' || '), g.split(' || ')
+                    first = next((k for k in range(min(len(pe), len(pg))) if pe[k] != pg[k]), min(len(pe), len(pg)))
+                else:
+                    first = None
+                ctx.violation('mp-phases' if found is not None else 'mp-corr:phases',
+                              ('property fails on the implementation (one object, several finalize() phases): ' + found) if found
+                              else 'model and implementation disagree in phase %s of a multi-phase history' % first,
+                              {'shapes': shapes, 'phases': [[list(c) for c in ph] for ph in phases],
+                               'dirichlet_queries (patch, axis, side, constant value)': Q, 'first_differing_phase': first,
+                               'implementation': e[:3000], 'model': g[:3000], 'oracle': found,
+                               'replay': 'M = Multipatch([(kvs_p, unit_square()/unit_cube())…]); per phase: join_boundaries(...) per call; M.finalize(); '
+                                         'M.patch_to_global_idx(p); M.compute_dirichlet_bcs([(p,(ax,side),float(val))…]); M.assemble_system'},
+                              found is not None)
+    ctx.obligation('correspondence stream mp/phases: %d multi-phase histories on one object, model == implementation and oracle holds' % len(req),
+                   nd_ == 0, '%d failing histories' % nd_)
+    ctx.extra['requests'] = ctx.extra.get('requests', 0) + len(req)
+
+
 # ----------------------------------------------------------------------------- geometric stream
 
 def detect_stream(ctx):
@@ -618,4 +757,5 @@ def run(ctx):
     ctx.obligation('correspondence stream mp/slice: %d face enumerations, model == implementation' % len(sreq), nsd == 0, '%d disagreements' % nsd)
     ctx.count('slice requests', len(sreq))
 
+    phases_stream(ctx)
     detect_stream(ctx)
